@@ -14,7 +14,8 @@ reply is in flight; its handling is split into the atomic steps of the code:
   stage 2   = `query.id != resp.ID`
   stage 3   = `query.Finished()`  (closeLock)
   stage 4   = duplicate check on `acks` / `responses`
-  stage 5   = `sendAck` / `sendResponse` (closeLock: closed check, non-blocking send, record)
+  stage 5   = `sendAck` / `sendResponse` (closeLock: closed check, non-blocking send, record) — ONE action
+              only if the regenerated lock shape says the check and the send share a critical section
 Any other action (timer closure of any object, registration of a query — also
 with a Lamport time already registered: the map entry is overwritten —, the
 deadline passing, the client consuming from a channel) may happen between two steps.
@@ -89,6 +90,62 @@ inductive Action where
   | consumeResp (i : Nat)
   deriving DecidableEq, Repr, Inhabited
 
+/-! ### Lock shapes (regenerated from serf/query.go into `SerfModel.Gen.QueryLocks`)
+
+The granularity of the actions below is DERIVED from how the code uses `closeLock`:
+`sendAck`/`sendResponse` are one atomic action (test of `closed` + send) only if the test and
+the send sit in one critical section; otherwise the test and the send are two actions
+and anything — in particular a `Close()` — may happen in between. -/
+
+/-- `sendAck` / `sendResponse`. -/
+structure SendShape where
+  /-- first statement `r.closeLock.Lock()` -/
+  lockFirst : Bool
+  /-- second statement `defer r.closeLock.Unlock()` -/
+  deferred : Bool
+  /-- another unlock of closeLock occurs in the body -/
+  earlyUnlock : Bool
+  /-- `if r.closed { return … }` after the lock and before the send -/
+  closedTestInside : Bool
+  /-- the channel send comes after that test, under the lock -/
+  sendInside : Bool
+  /-- the body calls a method of the receiver (`Finished()`, `Close()` … lock closeLock themselves) -/
+  callsOwnMethods : Bool
+  deriving DecidableEq, Repr, Inhabited
+
+def SendShape.atomic (s : SendShape) : Bool :=
+  s.lockFirst && s.deferred && !s.earlyUnlock && s.closedTestInside && s.sendInside && !s.callsOwnMethods
+
+/-- `Close`. -/
+structure CloseShape where
+  lockFirst : Bool
+  deferred : Bool
+  earlyUnlock : Bool
+  /-- `if r.closed { return }` before anything else -/
+  closedGuard : Bool
+  /-- `r.closed = true` under the lock -/
+  setsClosed : Bool
+  /-- both channels are closed under the lock -/
+  closesChannels : Bool
+  deriving DecidableEq, Repr, Inhabited
+
+def CloseShape.good (c : CloseShape) : Bool :=
+  c.lockFirst && c.deferred && !c.earlyUnlock && c.closedGuard && c.setsClosed && c.closesChannels
+
+structure Shapes where
+  sendAck : SendShape
+  sendResponse : SendShape
+  close : CloseShape
+  finishedLocked : Bool
+  deriving DecidableEq, Repr, Inhabited
+
+def Shapes.sendAtomic (sh : Shapes) (isAck : Bool) : Bool :=
+  (if isAck then sh.sendAck else sh.sendResponse).atomic
+
+/-- The shapes under which the model's actions are the code's critical sections. -/
+def Shapes.good (sh : Shapes) : Bool :=
+  sh.sendAck.atomic && sh.sendResponse.atomic && sh.close.good && sh.finishedLocked
+
 /-- Apply `f` to the object at index `i`. -/
 def modAt (f : QR → QR) : List QR → Nat → List QR
   | [], _ => []
@@ -113,7 +170,20 @@ def send (now : Nat) (r : Reply) (q : QR) : QR :=
       { q with respBuf := q.respBuf + 1, resps := q.resps ++ [r.sender], respLog := q.respLog ++ [⟨r, now⟩] }
     else q
 
-def replyStep (s : Sys) : Sys :=
+/-- The send WITHOUT the test of `closed` in the same critical section (used only for lock shapes
+that are not atomic): on a closed channel Go panics with "send on closed channel"; the model records
+the attempt as a send, so that it shows up as a reply routed after close. -/
+def sendUnchecked (now : Nat) (r : Reply) (q : QR) : QR :=
+  if r.isAck then
+    if q.ackWanted && (q.closed || q.ackBuf < q.cap) then
+      { q with ackBuf := q.ackBuf + 1, acks := q.acks ++ [r.sender], ackLog := q.ackLog ++ [⟨r, now⟩] }
+    else q
+  else
+    if q.closed || q.respBuf < q.cap then
+      { q with respBuf := q.respBuf + 1, resps := q.resps ++ [r.sender], respLog := q.respLog ++ [⟨r, now⟩] }
+    else q
+
+def replyStep (sh : Shapes) (s : Sys) : Sys :=
   match s.inflight with
   | none => s
   | some f =>
@@ -129,10 +199,16 @@ def replyStep (s : Sys) : Sys :=
       else if f.stage = 4 then
         if (if f.r.isAck then q.acks else q.resps).contains f.r.sender then { s with inflight := none }
         else { s with inflight := some { f with stage := 5 } }
-      else
+      else if sh.sendAtomic f.r.isAck then
         { s with objs := modAt (send s.now f.r) s.objs f.ref, inflight := none }
+      else if f.stage = 5 then
+        -- the test of `closed` is a critical section of its own …
+        if q.closed then { s with inflight := none } else { s with inflight := some { f with stage := 6 } }
+      else
+        -- … and the send another one
+        { s with objs := modAt (sendUnchecked s.now f.r) s.objs f.ref, inflight := none }
 
-def act (s : Sys) (a : Action) : Sys :=
+def act (sh : Shapes) (s : Sys) (a : Action) : Sys :=
   let s' : Sys :=
     match a with
     | .register lt id ack cap =>
@@ -152,11 +228,11 @@ def act (s : Sys) (a : Action) : Sys :=
         match alookup s.map r.lt with
         | none => s
         | some i => { s with inflight := some ⟨r, 2, i⟩ }
-    | .replyStep => replyStep s
+    | .replyStep => replyStep sh s
     | .consumeAck i => { s with objs := modAt (fun q => { q with ackBuf := q.ackBuf - 1 }) s.objs i }
     | .consumeResp i => { s with objs := modAt (fun q => { q with respBuf := q.respBuf - 1 }) s.objs i }
   { s' with now := s.now + 1 }
 
-def run (sched : List Action) : Sys := sched.foldl act {}
+def run (sh : Shapes) (sched : List Action) : Sys := sched.foldl (act sh) {}
 
 end SerfModel.QueryRoute
